@@ -221,7 +221,7 @@ func GenG(t *rapid.T, o Opts) *G {
 	if o.Styles {
 		g.Style = ri(t, 0, 63, "style")
 		if ri(t, 0, 3, "ws-style") == 0 {
-			g.Style |= ri(t, 1, 7, "ws-bits") << 6 // CRLF / tabs / trailing blanks
+			g.Style |= ri(t, 1, 15, "ws-bits") << 6 // CRLF / tabs / trailing blanks / zero-padded levels
 		}
 	}
 	return g
@@ -610,6 +610,9 @@ func GenExpr(t *rapid.T) *ExprSpec {
 		}
 	}
 	g.Style = ri(t, 0, 7, "style")
+	if ri(t, 0, 3, "padlevels") == 0 {
+		g.Style |= 512
+	}
 	return es
 }
 
